@@ -34,6 +34,11 @@ def run(chk):
     # snapshot / clone at every position of a stream, all subjects (direction A)
     progs = apifam.programs(chk, "Api_snap.cfg", simulate=250 if quick else 2500, depth=12, cap=250 if quick else 2500)
     apifam.replay(chk, yv, "c13", progs, mode="snap")
+    # indicator instances (snapshot at every position, static) and configurations (serde round trip)
+    from checks import c11
+    for m in c11.ind_api(chk, yv, "c13ind", quick):
+        if ":snapshot:" in m["key"] or ":config-serde:" in m["key"]:
+            chk.finding(m["key"], {"stage": "A:ind-api", "ctx": m.get("ctx")})
     fb.result()
     ft.result()
     chk.assumptions += ["snapshots go through serde_json (self-describing text) with its float_roundtrip feature, i.e. a lossless carrier",
